@@ -66,6 +66,90 @@ pub struct FloatConsts {
     pub max_mantissa_fast: u64,
 }
 
+#[derive(Clone, Debug, PartialEq, Eq)]
+pub enum BigOp {
+    SmallAdd(u64),
+    SmallMul(u64),
+    LargeAddFrom(Vec<u64>, usize),
+    LongMul(Vec<u64>),
+    LargeMul(Vec<u64>),
+    Pow5(u32),
+    BigintPow(u32, u32),
+    ShlBits(usize),
+    ShlLimbs(usize),
+    Shl(usize),
+    Normalize,
+    MulAssign(Vec<u64>),
+    PowThenShl(u32, usize),
+    MulSmallAddSmall(u64, u64),
+}
+
+#[derive(Clone, Debug, PartialEq, Eq)]
+pub enum BigOut {
+    Ok { limbs: Vec<u64>, len: usize, capacity: usize },
+    Failed,
+}
+
+#[derive(Clone, Debug, PartialEq, Eq)]
+pub enum VecOp {
+    New,
+    TryFrom(Vec<u64>),
+    Push(u64),
+    Pop,
+    Extend(Vec<u64>),
+    Resize(usize, u64),
+    Normalize,
+    AddSmall(u64),
+    MulSmall(u64),
+    CloneToB,
+    Swap,
+    Write(usize, u64),
+    FromU64(u64),
+}
+
+#[derive(Clone, Debug, PartialEq, Eq)]
+pub struct VecObs {
+    pub ret: i64,
+    pub popped: Option<u64>,
+    pub a: Vec<u64>,
+    pub len: usize,
+    pub is_empty: bool,
+    pub capacity: usize,
+    pub is_normalized: bool,
+    pub hi64: (u64, bool),
+    pub eq_ab: bool,
+    pub cmp_ab: std::cmp::Ordering,
+    pub partial_cmp_ab: Option<std::cmp::Ordering>,
+    pub b: Vec<u64>,
+}
+
+/// The power constants a configuration exposes (C14).
+#[derive(Clone, Debug, Default)]
+pub struct Tables {
+    pub pow5_128: Vec<(u64, u64)>,
+    pub smallest_pow5: i32,
+    pub largest_pow5: i32,
+    pub small_int_pow5: Vec<u64>,
+    pub small_int_pow10: Vec<u64>,
+    pub small_f32_pow10: Vec<u32>,
+    pub small_f64_pow10: Vec<u64>,
+    pub large_pow5: Vec<u64>,
+    pub large_pow5_step: u32,
+    /// compute_error_scaled(q, 1<<63, 0).exp - INVALID_FP for every q (reveals `power(q)`)
+    pub lemire_power: Vec<(i32, i32)>,
+    pub bell_small: Vec<(u64, i32)>,
+    pub bell_large: Vec<(u64, i32)>,
+    pub bell_small_int: Vec<u64>,
+    pub bell_step: i32,
+    pub bell_bias: i32,
+}
+
+pub type ShapeFn = fn(&[u8], &[u8], i32, u32, u64) -> u64;
+fn shapes_unset(_: &[u8], _: &[u8], _: i32, _: u32, _: u64) -> u64 {
+    unreachable!()
+}
+pub const SHAPES_UNSET: ShapeFn = shapes_unset;
+
 pub struct Cfg {
     pub name: &'static str,
     pub std: bool,
@@ -91,6 +175,17 @@ pub struct Cfg {
     pub consts64: fn() -> FloatConsts,
     pub pow_fast32: fn(usize) -> u64,
     pub pow_fast64: fn(usize) -> u64,
+    pub big_apply: fn(&[u64], &BigOp) -> BigOut,
+    pub big_observe: fn(&[u64]) -> Option<(bool, u32, (u64, bool), u32)>,
+    pub big_compare: fn(&[u64], &[u64]) -> std::cmp::Ordering,
+    pub bigint_from_u64: fn(u64) -> Vec<u64>,
+    pub vec_history: fn(&[VecOp], u64) -> Vec<VecObs>,
+    pub slow_parse_mantissa: fn(&[u8], &[u8], usize) -> (Vec<u64>, usize),
+    pub tables: fn() -> Tables,
+    /// bundled libm pow(10, e) as (f32 bits, f64 bits), only in no_std+compact
+    pub libm_pow: fn(u32) -> Option<(u32, u64)>,
+    pub shapes32: ShapeFn,
+    pub shapes64: ShapeFn,
 }
 
 impl Cfg {
@@ -145,7 +240,7 @@ impl Cfg {
 }
 
 macro_rules! cfg_mod {
-    ($m:ident, $krate:ident, $name:expr, $std:expr, $compact:expr, $alloc:expr) => {
+    ($m:ident, $krate:ident, $name:expr, $std:expr, $compact:expr, $alloc:expr, $tables:literal, $libm:literal) => {
         pub mod $m {
             #![allow(dead_code, unused_imports)]
             use $krate as ml;
@@ -153,19 +248,21 @@ macro_rules! cfg_mod {
             pub const STD: bool = $std;
             pub const COMPACT: bool = $compact;
             pub const ALLOC: bool = $alloc;
+            include!($tables);
+            include!($libm);
             include!("cfgmod.rs");
         }
     };
 }
 
-cfg_mod!(m_default, ml_default, "default", true, false, false);
-cfg_mod!(m_compact, ml_compact, "compact", true, true, false);
-cfg_mod!(m_alloc, ml_alloc, "alloc", true, false, true);
-cfg_mod!(m_compact_alloc, ml_compact_alloc, "compact+alloc", true, true, true);
-cfg_mod!(m_nostd, ml_nostd, "no_std", false, false, false);
-cfg_mod!(m_nostd_alloc, ml_nostd_alloc, "no_std+alloc", false, false, true);
-cfg_mod!(m_nostd_compact, ml_nostd_compact, "no_std+compact", false, true, false);
-cfg_mod!(m_nostd_compact_alloc, ml_nostd_compact_alloc, "no_std+compact+alloc", false, true, true);
+cfg_mod!(m_default, ml_default, "default", true, false, false, "cfgmod_lemire.rs", "cfgmod_nolibm.rs");
+cfg_mod!(m_compact, ml_compact, "compact", true, true, false, "cfgmod_compact.rs", "cfgmod_nolibm.rs");
+cfg_mod!(m_alloc, ml_alloc, "alloc", true, false, true, "cfgmod_lemire.rs", "cfgmod_nolibm.rs");
+cfg_mod!(m_compact_alloc, ml_compact_alloc, "compact+alloc", true, true, true, "cfgmod_compact.rs", "cfgmod_nolibm.rs");
+cfg_mod!(m_nostd, ml_nostd, "no_std", false, false, false, "cfgmod_lemire.rs", "cfgmod_nolibm.rs");
+cfg_mod!(m_nostd_alloc, ml_nostd_alloc, "no_std+alloc", false, false, true, "cfgmod_lemire.rs", "cfgmod_nolibm.rs");
+cfg_mod!(m_nostd_compact, ml_nostd_compact, "no_std+compact", false, true, false, "cfgmod_compact.rs", "cfgmod_libm.rs");
+cfg_mod!(m_nostd_compact_alloc, ml_nostd_compact_alloc, "no_std+compact+alloc", false, true, true, "cfgmod_compact.rs", "cfgmod_libm.rs");
 
 pub static CFGS: [Cfg; 8] = [
     m_default::CFG,
